@@ -447,6 +447,24 @@ fn main() {
                 let left: Vec<String> = (0..t.len()).map(|i| { let (a, b, _) = t.get(i); format!("{},{}{}", a, b, if t.is_unresolved(i) { "!" } else { "" }) }).collect();
                 format!("before={} after={} left={}", before, t.flag(), if left.is_empty() { "-".to_string() } else { left.join(";") })
             }
+            // shardopts <shard> <nr_shards> <msb>: each `-` (option missing), `e` (empty list), `x` (unparsable text) or a number: ShardInfo::try_from(&SUPPORTED options)
+            "shardopts" => {
+                use std::collections::HashMap;
+                let mut opts: HashMap<String, Vec<String>> = HashMap::new();
+                opts.insert("COMPRESSION".into(), vec!["lz4".into()]);
+                for (k, v) in [("SCYLLA_SHARD", a[1]), ("SCYLLA_NR_SHARDS", a[2]), ("SCYLLA_SHARDING_IGNORE_MSB", a[3])] {
+                    match v {
+                        "-" => {}
+                        "e" => { opts.insert(k.into(), vec![]); }
+                        "x" => { opts.insert(k.into(), vec!["12ab".into(), "7".into()]); }
+                        n => { opts.insert(k.into(), vec![n.to_string(), "bogus-second-entry".into()]); }
+                    }
+                }
+                match vh::shard_info_from_options(&opts) {
+                    Some((shard, nr, msb)) => format!("OK {} {} {}", shard, nr.get(), msb),
+                    None => "ERR".to_string(),
+                }
+            }
             "token_new" => Token::new(num(1) as i64).value().to_string(),
             _ => "UNKNOWN".to_string(),
         };
